@@ -185,6 +185,13 @@ def check(ctx):
         n_plot += len(pl)
         okl = len(loops) == 1
         row = None
+        # the same selection written as a mask: the rows of the stored field at the positions j with j % every == 0
+        want_mask = nf.fn("cmp:==", nf.fn("op:Mod", nf.sym("@J"), nf.sym("every")), {})
+        masked = [e for e in p.events if e.kind == "for_iter" and isinstance(e.data["iter"], Num) and e.data["iter"].nf == nf.fn("rows", PP, want_mask)]
+        if len(masked) == 1:
+            okl, row = True, masked[0].data["iter"].nf
+            ctx.check(okl, "C20-b", q + ":profile selection " + tag(p), f.where(), "the loop runs over every stored row of reservoir.pseudopressure and draws those with index % every == 0 (first and last eligible rows included)", signature="profile selection", loops=1)
+            okl = False  # reported; continue below with `row`
         if okl:
             itv = loops[0].data["iter"]
             if isinstance(itv, EnumV) and it.to_nf(itv.inner) == PP:
@@ -195,8 +202,9 @@ def check(ctx):
                     continue
             else:
                 okl = False
-        ctx.check(okl, "C20-b", q + ":profile selection " + tag(p), f.where(), "the loop runs over every stored row of reservoir.pseudopressure and draws those with index % every == 0 (first and last eligible rows included)", signature="profile selection", loop=str(loops[0].data["iter"])[:100] if loops else "none")
-        if not okl or row is None:
+        if len(masked) != 1:
+            ctx.check(okl, "C20-b", q + ":profile selection " + tag(p), f.where(), "the loop runs over every stored row of reservoir.pseudopressure and draws those with index % every == 0 (first and last eligible rows included)", signature="profile selection", loop=str(loops[0].data["iter"])[:100] if loops else "none")
+        if (not okl and len(masked) != 1) or row is None:
             continue
         resc = next((c for _k, c, d in p.decisions if d == "rescale"), None)
         if len(pl) != 1:
